@@ -775,7 +775,10 @@ func c06_5(c *core.Ctx, p *core.Prog) {
 		if n == 0 {
 			msgs = append(msgs, "the waiter never returns after receiving responses")
 		}
-		c.Check(len(msgs) == 0, "wait|zero", pos, core.FuncName(fn), "returns on the response arm only when the countdown is zero", strings.Join(msgs, "; "))
+		c.Check(len(msgs) == 0, "wait|zero", pos, core.FuncName(fn), "returns on the response arm only when the countdown is zero", strings.Join(msgs, "; ")+": a waiter that leaves before all its parts were answered leaves the export goroutines of the remaining parts blocked on its one-slot channel (its context is still alive), so goroutines and semaphore slots leak and Shutdown hangs")
+	}
+	if c.Property == "C11" {
+		return // the error-join and context-arm clauses are about the outcome (C06), not about goroutines
 	}
 	// (iii) error join is loop-carried
 	var errPhi *ssa.Phi
